@@ -296,9 +296,12 @@ func c10IsoBodyReq(bg *[65536]uint8, e *Enc, results *[2]refz80.State, logs *[2]
 // Variants of the two-CPU acceptance scenario:
 // 0 each CPU has its own request object;
 // 1 both CPUs are handed the *same* request object (one interrupt line wired to two CPUs): the object is
-//   input, whatever an implementation keeps in it must not connect the CPUs;
+//
+//	input, whatever an implementation keeps in it must not connect the CPUs;
+//
 // 2 CPU 1 is a by-value copy of CPU 0 (fork := *cpu, own memory and device) taken after CPU 0 has served a
-//   request of the same kind: whatever the first acceptance left in the CPU value is now in both.
+//
+//	request of the same kind: whatever the first acceptance left in the CPU value is now in both.
 const c10IsoVariants = 3
 
 func c10IsoBodyVar(bg *[65536]uint8, e *Enc, results *[2]refz80.State, logs *[2]string, nsteps int, reqKind int, variant int) func(s *sched.Scheduler) {
